@@ -1444,6 +1444,7 @@ package gomatrixserverlib
 //@ func redactEventJSON
 //@   property C05, C18:safety
 //@   requires unredactableEvent != nil
+//@   assigns *unredactableEvent
 //@   ensures malformed: !jokAs(old(*unredactableEvent), eventJSON) ==> err != nil
 //@   calls Marshal top-level-keys: setfield(*unredactableEvent, "Content", nil) == setfield(jmerge(old(*unredactableEvent), eventJSON), "Content", nil)
 //@   calls Marshal content-keys: forall k string :: (k in unredactableEvent.Content) <==> (k in jmerge(old(*unredactableEvent), eventJSON).Content && (keepAll(eventTypeToKeepContentFields, unredactableEvent.Type) || kept(eventTypeToKeepContentFields, unredactableEvent.Type, k)))
